@@ -34,6 +34,10 @@ type QUser struct {
 	PreAgeH   int   `json:"preAgeH"`   // how many hours ago the pre-loaded traffic happened
 	Up        []int `json:"up"`
 	Down      []int `json:"down"`
+	// Extra: further quotas of the user, all generous (never exceeded by this
+	// case); ExtraFirst puts them in front of the main one in the list
+	Extra      int  `json:"extra,omitempty"`
+	ExtraFirst bool `json:"extraFirst,omitempty"`
 }
 
 type QuotaCase struct {
@@ -60,6 +64,8 @@ func genQuota(t *rapid.T) QuotaCase {
 				u.PreloadKB = 0
 			}
 			u.PreAgeH = rapid.SampledFrom([]int{0, 1, u.Days*24 - 1, u.Days*24 + 2, u.Days * 48}).Draw(t, "age")
+			u.Extra = rapid.SampledFrom([]int{0, 0, 1, 2}).Draw(t, "extraQuotas")
+			u.ExtraFirst = rapid.Bool().Draw(t, "extraFirst")
 		} else if rapid.Bool().Draw(t, "preloadNoQuota") {
 			u.PreloadKB = 50000
 		}
@@ -86,7 +92,16 @@ func propQuota(c QuotaCase) (o pbt.Outcome) {
 	for i, u := range c.Users {
 		users = append(users, e2e.UserSpec{Name: fmt.Sprintf("%s%d", base, i), Password: fmt.Sprintf("pw%d", i)})
 		if u.QuotaMB > 0 {
-			quotas[i] = [][2]int32{{int32(u.Days), int32(u.QuotaMB)}}
+			q := [][2]int32{{int32(u.Days), int32(u.QuotaMB)}}
+			for k := 0; k < u.Extra; k++ {
+				generous := [2]int32{int32(60 + 30*k), int32(100000 + k)}
+				if u.ExtraFirst {
+					q = append([][2]int32{generous}, q...)
+				} else {
+					q = append(q, generous)
+				}
+			}
+			quotas[i] = q
 		}
 	}
 	standing := map[string]bool{}
